@@ -119,6 +119,8 @@ def write_evidence(pid, cfg, tier, seed, results, violations, known_hits, inconc
     solver_s = 0.0
     bounds = []
     cmds = []
+    harness_ev = harness_nt = 0
+    programs = set()
     for spec, r in results:
         row = {'unit': r.name, 'engine': r.engine, 'status': r.status, 'obligations': r.obligations,
                'discharged': r.discharged, 'solver_s': round(r.solver_s, 2), 'wall_s': round(r.wall_s, 2),
@@ -137,6 +139,18 @@ def write_evidence(pid, cfg, tier, seed, results, violations, known_hits, inconc
         else:
             proof_ob += r.obligations
             proof_dis += r.discharged
+            rows = r.extra.get('harnesses') or []
+            if rows:
+                rel = [x for x in rows if (('::' + pid.lower() + '_') in x['harness'] or x['harness'].split('::')[-1].startswith(pid.lower() + '_')
+                                           or pid in cfg.get('all_harnesses_count_for', []))]
+                if not rel:
+                    rel = rows
+                harness_ev += len(rel)
+                harness_nt += len([x for x in rel if x['checks'] > 1 and x['verdict'] == 'ok'])
+                mods = set(x['harness'].split('::h::')[0] for x in rel if '::h::' in x['harness'])
+                programs.update(mods)
+                for x in rel[:2]:
+                    samples.append({'unit': r.name, 'obligation': x})
             for fn in r.functions[:400]:
                 functions.append('%s %s:%s [%s] text-sha256=%s' % (r.name, fn['file'], fn['line'], fn['selector'], fn['sha256']))
             for pf in (r.extra.get('harnesses') or [])[:3]:
@@ -171,8 +185,13 @@ def write_evidence(pid, cfg, tier, seed, results, violations, known_hits, inconc
         cov['distinct_nontrivial'] = bounded_nt
         cov['rule'] = cfg.get('rule', 'bounded-exhaustive enumeration, see bounded_standins')
         cov['exhaustive'] = True
-    if cfg.get('programs'):
-        cov['programs'] = cfg['programs']
+    if harness_ev and not bounded_ev:
+        cov['evaluations'] = harness_ev
+        cov['distinct_nontrivial'] = harness_nt
+        cov['rule'] = 'one evaluation = one Kani harness (a function contract checked for all symbolic field values of one generated function or operation sequence); non-trivial = the harness generated more than one check and verified'
+    if programs:
+        cov['programs'] = len(programs)
+        cov['corpus_modules'] = sorted(programs)
     ev = {
         'property_id': pid,
         'tier': tier,
